@@ -96,7 +96,7 @@ def nullable(e, rules=None):
     if k == 'ilit':
         return e[1] == ''
     if k in ('rx', 'irx'):
-        return e[1] in ('b?', 'a*', '') or e[1].endswith('*') or e[1].endswith('?')
+        return e[1] in ('b?', 'a*', '', '$') or e[1].endswith('*') or e[1].endswith('?') or e[1].endswith('$') or e[1].startswith('(?')
     if k in ('byte', 'fail'):
         return False
     if k == 'ref':
